@@ -18,6 +18,7 @@ type XJob struct {
 	Target string `json:"target"` // "go" | "typescript"
 	Unpack bool   `json:"unpack"`
 	Object bool   `json:"object"`
+	DotG   string `json:"dotg"` // non-empty: the -g option with this path
 }
 
 func cmdXgen() {
@@ -37,6 +38,10 @@ func cmdXgen() {
 			utils.PackFlags = !j.Unpack
 			utils.HttpDebug = false
 			utils.ObjectMode = j.Object
+			utils.GenDotGraph = j.DotG != ""
+			if j.DotG != "" {
+				utils.GenDotPath = j.DotG
+			}
 			switch j.Target {
 			case "go":
 				err = builder.TemplateGenFromString(j.Src, j.Out)
